@@ -826,6 +826,12 @@ func (e *engine) Run(src *vs.Source, tier string, idx int64) (res *simkit.RunRes
 		if msg, class := crossCheck(src, sc, ref0, skip0, tier, idx); msg != "" {
 			if class == "machinery" {
 				viols = append(viols, simkit.Violation{Class: "machinery", Sig: "machinery/instrumentation-diverges", Detail: msg})
+			} else if class == "divergence" {
+				// Either the instrumentation changed a result (then it does so in
+				// fresh processes too: the supervisor answers exit 2) or the
+				// library's result depends on what its process did earlier (then
+				// only the history reproduces it: a violation).
+				viols = append(viols, simkit.Violation{Class: "cross-process-divergence", Sig: "result-differs/cross-process/process-history", Detail: "result-differs/cross-process/process-history: " + msg})
 			} else {
 				fail("result-differs", "cross-process", class, msg)
 			}
@@ -1082,7 +1088,7 @@ func crossCheck(src *vs.Source, sc *scenario, ref [][]opResult, skip [][]bool, t
 	for t := range ref {
 		for i := range ref[t] {
 			if t < len(resp.A) && i < len(resp.A[t]) && !skip[t][i] && resp.A[t][i] != ref[t][i].Digest {
-				return fmt.Sprintf("instrumented canonical-order result differs from the un-instrumented library's (both self-consistent) for %s:\n  instrumented   %s\n  un-instrumented %s", opString(&sc.scripts[t][i]), clipAround(ref[t][i].Digest, resp.A[t][i]), clipAround(resp.A[t][i], ref[t][i].Digest)), "machinery"
+				return fmt.Sprintf("this process and the reference process (un-instrumented library) return different results for %s, each consistently:\n  here      %s\n  reference %s", opString(&sc.scripts[t][i]), clipAround(ref[t][i].Digest, resp.A[t][i]), clipAround(resp.A[t][i], ref[t][i].Digest)), "divergence"
 			}
 		}
 	}
